@@ -38,6 +38,8 @@ def ref_parse(toks):
             return ['var', a[1]]
         if k == 'n':
             return ['num', repr(float(a[1]))]
+        if k == 'lit':
+            return ['num', repr(float(a[1]))]   # a literal is ONE number, however it is padded
         if k == 'p':
             return ref_parse(a[1])
         if k == 'im':
@@ -96,6 +98,8 @@ def render_atom(a, alias):
     if k == 'n':
         s = repr(float(a[1]))
         return s[:-2] if s.endswith('.0') else s
+    if k == 'lit':
+        return a[1]
     if k == 'p':
         return '(' + render(a[1], alias) + ')'
     if k == 'im':
@@ -163,6 +167,18 @@ def sequences(t, sd):
             seqs.append([V(3), o, 'neg', f])
             seqs.append([V(3), o, V(4), '/', f]) if o != '/' else None
             seqs.append([V(3), '/', f, o, V(4)])
+    # the spelling of a numeric literal: leading and trailing zeros, many digits - one literal is one factor
+    for text in ('007', '010', '05', '00.5', '1.50', '0.50', '2.0', '100', '0.125', '10.010', '000', '0.0'):
+        lit = ('lit', text)
+        seqs.append([lit, '+', V(0)])
+        seqs.append([V(0), '*', lit])
+        seqs.append([V(0), '-', lit, '*', V(1)])
+        seqs.append([('im', [lit, V(0)])])
+        seqs.append([V(1), '+', ('im', [lit, ('p', [V(0), '+', V(1)])])])
+        seqs.append(['neg', lit, '+', V(0)])
+        if float(text) != 0:
+            seqs.append([V(0), '/', lit])
+            seqs.append([V(0), '/', ('im', [lit, V(1)])])
     # identifiers that merely start with a keyword stay identifiers
     kw = ['andy', 'notx', 'inx', 'orb', 'xory', 'iffy', 'impliesz', 'minx', 'maxy', 'asz', 'forx', 'truex', 'letx', 'not_x', 'falsey', 'Truth', 'solver', 'wherex', 'definex']
     for k in kw:
